@@ -369,7 +369,7 @@ pub fn record_jets(per_jet: usize, path: &str) {
         if !flat(&src) || !flat(&tgt) || src.bit_width() > 2048 { continue; }
         // specified through an inversion or a scalar multiplication (minutes per input in TLC): record_ec_jets picks their inputs
         let name = j.to_string();
-        if ["gej_y_is_odd", "generate", "linear_combination_1", "scale", "linear_verify_1", "point_verify_1", "bip_0340_verify", "check_sig_verify"].contains(&name.as_str()) { continue; }
+        if ["gej_y_is_odd", "generate", "linear_combination_1", "scale", "linear_verify_1", "point_verify_1", "bip_0340_verify", "check_sig_verify", "swu", "hash_to_curve"].contains(&name.as_str()) { continue; }
         // the secp256k1 jets cost TLC a few hundred limb products per input
         let ec = ["fe_", "ge_", "gej_", "scalar_", "linear_", "point_", "bip_", "check_sig", "swu", "hash_to"].iter().any(|p| name.starts_with(p));
         let per_jet = if ec { 2 + per_jet / 6 } else { per_jet };
@@ -627,6 +627,14 @@ pub fn record_ec_jets(per_jet: usize, path: &str) {
         let sq = run("fe_square", &y, true, &mut out).expect("square");
         run("fe_square_root", &sq, true, &mut out);
         run("fe_square_root", &rand_bits(&mut rng, 256), true, &mut out);
+    }
+    // the map to the curve and the hash to the curve (an inversion and up to three roots per image in the specification)
+    run("swu", &zero, true, &mut out);
+    run("swu", &small(1), true, &mut out);
+    run("swu", &ones, true, &mut out);
+    for _ in 0..few {
+        run("swu", &rand_bits(&mut rng, 256), true, &mut out);
+        run("hash_to_curve", &rand_bits(&mut rng, 256), true, &mut out);
     }
     run("gej_y_is_odd", &inf, true, &mut out);
     run("fe_square_root", &zero, true, &mut out);
